@@ -86,6 +86,7 @@ package common
 //@   ensures [nodes] err == nil ==> (forall k int :: {result0.Nodes[k]} 0 <= k && k < len(result0.Nodes) ==> NodeKeysParsed(result0.Nodes[k]))
 //@   ensures [alloc] err == nil ==> (forall k int :: {result0.Nodes[k]} 0 <= k && k < len(result0.Nodes) ==> allocated(result0.Nodes[k]) && allocated(result0.Nodes[k].Extra))
 //@       -- the returned objects exist in the state returned to the caller (lets callers frame their own loops with loopentry)
+//@   ensures [alloc-nodes] err == nil ==> allocated(result0.Nodes) && allocated(result0.Custodian) && allocated(result0.Signature)   -- C11: every part of the result exists
 //@   ensures [unique] err == nil ==> (forall a, b int :: {result0.Nodes[a], result0.Nodes[b]} 0 <= a && a < len(result0.Nodes) && 0 <= b && b < len(result0.Nodes) && a != b ==>
 //@       SpendKeysDisjoint(result0.Nodes[a], result0.Nodes[b]))
 //@   ensures [signed] err == nil && !genesis ==> (forall k int :: {result0.Nodes[k]} 0 <= k && k < len(result0.Nodes) ==> NodeSigned(result0.Nodes[k]))
